@@ -29,7 +29,7 @@ LEVEL = META['level']
 RULE = ('a case = one (stream, chunking) parsed, or one (stream, truncation offset, chunking) delivered to the server; chunkings/offsets enumerated as described; distinct by the tuple; '
         'non-trivial = the stream has >= 2 frames or the cut falls inside a frame')
 ASSUMPTIONS = ['the server is given 3 s to close a connection after EOF (wall-clock only guards; exceeding it is inconclusive, not a violation)']
-REQUIRED = ['parser:source-rememberable', 'parser:source-chainable', 'parser:streams', 'parser:two-way-splits', 'parser:bytewise', 'parser:k-way', 'parser:frame-spanning-recv-blocks', 'parser:zero-length-payload',
+REQUIRED = ['trunc:long-stream', 'parser:source-rememberable', 'parser:source-chainable', 'parser:streams', 'parser:two-way-splits', 'parser:bytewise', 'parser:k-way', 'parser:frame-spanning-recv-blocks', 'parser:zero-length-payload',
             'client:streams', 'client:responses', 'client:nop-frames', 'trunc:trials', 'trunc:inside-header', 'trunc:inside-payload', 'trunc:on-frame-boundary', 'trunc:inside-write-frame',
             'trunc:register-frame', 'monitor:state-equals-complete-frames-only', 'monitor:second-session-alive', 'monitor:fresh-session', 'monitor:connection-table-baseline',
             'monitor:reply-count']
@@ -338,7 +338,7 @@ def trunc_trial(ctx, sim, second, rng, reqs, frames_of, t, chunk_mode, register_
         sock.shutdown(socket.SHUT_WR)
         # collect replies until the server closes
         buf = b''
-        sock.settimeout(3)
+        sock.settimeout(20)         # a watchdog for "never", not a performance requirement
         closed = False
         try:
             while True:
@@ -350,7 +350,7 @@ def trunc_trial(ctx, sim, second, rng, reqs, frames_of, t, chunk_mode, register_
         except socket.timeout:
             pass
         if not closed:
-            ctx.inconclusive_because('server did not close a connection within 3 s of EOF (wall-clock guard)')
+            ctx.inconclusive_because('server did not close a connection within 20 s of EOF (wall-clock guard)')
             return
         replies, rest = rc.split_frames(buf)
         if register_cut is not None:
@@ -461,6 +461,21 @@ def server_level(ctx, rng):
             for cut in ([1, 12, 23, 24, 27] if quick else range(0, 28)):
                 if cut % ctx.nshards == ctx.shard % 4 or not quick:
                     trunc_trial(ctx, sim, second, rng, reqs, frames_of, 0, 'whole', register_cut=cut)
+            # a long stream (many complete frames in flight at once) ending exactly on, just before and just after the sizes in which
+            # the server reads its socket: the end-of-stream then arrives while complete, still unprocessed frames are buffered
+            long_reqs = []
+            for j in range(150):
+                long_reqs.append({'path': {'segment': [{'symbolic': 'W'}, {'element': j % 8}]}, 'write_tag': {'type': 0xC4, 'elements': 1, 'data': [100000 + j]}} if j % 3 else
+                                 {'path': {'segment': [{'symbolic': 'W'}]}, 'read_tag': {'elements': 8}})
+
+            def long_frames(session, reqs=long_reqs):
+                return [rc.rr_frame(rc.enc_unconnected_send(rc.enc_request(r)), session, struct.pack('<Q', 5000 + i)) for i, r in enumerate(reqs)]
+            ltotal = sum(len(f) for f in long_frames(1))
+            lcuts = [c for c in (4095, 4096, 4097, 8191, 8192, 8193, 2048, 12288, ltotal) if c <= ltotal]
+            for j, t in enumerate(lcuts):
+                if j % ctx.nshards == ctx.shard % 4 or not quick:
+                    trunc_trial(ctx, sim, second, rng, long_reqs, long_frames, t, 'whole')
+                    ctx.count('trunc:long-stream')
             ctx.sample({'truncation_stream_bytes': total, 'offsets_tried_this_shard': len(offs), 'requests': [sorted(r)[-1] for r in reqs]})
     finally:
         second.close()
